@@ -43,6 +43,7 @@ static void run_chunk(const Item &it, int A, uint64_t lo, uint64_t hi, bool verb
 int main(int argc, char **argv)
 {
   vr::init(argc, argv);
+  install_fpe_handler();
   Reg reg;
 #define X(T_, n_)           \
   c04_reg_basic_##n_(reg);  \
